@@ -50,11 +50,11 @@ def doOp (m : Machine) (r : Run m) (ws : List String) : IO (Run m) := do
       if r.seen.contains c then IO.println "noop"; return r
       let (r', _) ← applyStep m { r with seen := c :: r.seen, live := insertAsc r.live c } ws
       return r'
-  | ["poll", c] =>
+  | "poll" :: c :: _ =>
       let c := c.toNat?.getD 0
       if r.live.contains c then let (r', _) ← applyStep m r ws; return r'
       else IO.println "noop"; return r
-  | ["drop", c] =>
+  | "drop" :: c :: _ =>
       let c := c.toNat?.getD 0
       if r.live.contains c then
         let (r', _) ← applyStep m r ws
